@@ -114,7 +114,7 @@ Section Step.
               (forall q, par = Some q -> has_child (d_tree (st s)) q = false))).
   Proof.
     unfold prepare. cbn zeta.
-    set (plan := match w_push (w_op w) with [] => _ | _ => _ end).
+    set (plan := plan_of _ _ _ _ _ _).
     destruct plan as [[| | |newrevs]|] eqn:Eplan; cbn [finish_failed st commits ws];
       try (split; [reflexivity|]; split; [reflexivity|]; eexists; split; [reflexivity|]; cbn; intros p Hp; discriminate).
     destruct (w_reject (w_op w)); cbn [finish_failed st commits ws];
@@ -123,7 +123,7 @@ Section Step.
       try (split; [reflexivity|]; split; [reflexivity|]; eexists; split; [reflexivity|]; cbn; intros p Hp; discriminate).
     split; [reflexivity|]. split; [reflexivity|]. eexists. split; [reflexivity|].
     cbn [w_prep w_op]. intros p Hp. inv Hp. cbn [p_cas p_doc p_rev d_tree]. split; [reflexivity|]. split; [reflexivity|].
-    intros Hpush. subst plan. rewrite Hpush in Eplan.
+    intros Hpush. subst plan. unfold plan_of in Eplan. rewrite Hpush in Eplan.
     destruct (put_check ac (d_tree (st s)) _ (w_deleted (w_op w))) as [par|] eqn:Epc; [|discriminate].
     destruct (dig_lookup tab _) as [dg|]; [|discriminate].
     destruct (has_rev (d_tree (st s)) (gen_of par + 1, dg)) eqn:Eh; inv Eplan.
@@ -158,13 +158,13 @@ Section Step.
           constructor; cbn [st commits ws].
           { intros c q Hc Hq. apply in_app_or in Hc as [Hc|[<-|[]]].
             - rewrite Htree, has_child_app, (pi_commits s P c q Hc Hq). reflexivity.
-            - cbn [c_parent] in Hq. eapply rev_parent_has_child; eauto. }
+            - cbn [commit_of c_parent] in Hq. eapply rev_parent_has_child; eauto. }
           { intros j wj pj Hj Hpj. destruct (Nat.eq_dec i j) as [<-|Hne].
             - rewrite (nth_error_set_nth_eq _ _ _ _ Hn) in Hj. inv Hj. discriminate.
             - rewrite nth_error_set_nth_neq in Hj by assumption.
               destruct (inv_prep s I j wj pj Hj Hpj) as (_ & _ & _ & _ & Hlej & _).
               unfold put_prep_ok. intros _ Heq. exfalso. cbn [st] in Heq. rewrite Hcas in Heq. lia. }
-          { apply ok_snoc; [apply (pi_unique s P)|]. cbn [c_put c_parent]. intros Hput q Hq c1 Hc1 Hq1.
+          { apply ok_snoc; [apply (pi_unique s P)|]. cbn [commit_of c_put c_parent]. intros Hput q Hq c1 Hc1 Hq1.
             destruct (w_push (w_op w)) eqn:Epush; [|discriminate].
             destruct (pi_prep s P i w p Hn Hp Epush Ecas) as (par & del & Htr & Hnew & Hleaf).
             unfold rev_parent_of in Hq. rewrite Htr in Hq.
